@@ -76,6 +76,15 @@ def first_match_as_search(t: Any) -> Any:
     if isinstance(t, tuple):
         if t and t[0] == "app" and t[1] == ("global", "builtins.next") and len(t[2]) == 2 and t[2][0][0] == "comp" and t[2][0][1] == "GeneratorExp" and len(t[2][0][3]) == 1:
             return phi([first_match_as_search(t[2][1]), first_match_as_search(t[2][0][2])])
+        if t and t[0] == "ifexp" and len(t) == 4 and isinstance(t[1], tuple) and len(t[1]) == 3 and t[1][0] == "op" and t[1][1] in ("Compare:Is", "Compare:IsNot") and len(t[1][2]) == 2 and t[1][2][1] == ("const", None):
+            # found = finder(..) [the element a search loop stopped at, or None]; default if found is None else e(found):
+            # as a value it is one of {default, e(element)} - the element a search returns under its own test is not None
+            p_ = t[1][2][0]
+            if isinstance(p_, tuple) and len(p_) == 2 and p_[0] == "phi" and ("const", None) in p_[1] and len(p_[1]) == 2:
+                x_ = [a_ for a_ in p_[1] if a_ != ("const", None)][0]
+                if isinstance(x_, tuple) and x_ and x_[0] == "elem":
+                    none_b, some_b = (t[2], t[3]) if t[1][1] == "Compare:Is" else (t[3], t[2])
+                    return phi([first_match_as_search(none_b), first_match_as_search(some_b)])
         return tuple(first_match_as_search(x) for x in t)
     return t
 
